@@ -404,6 +404,54 @@ Octagonal_Shape<T>::Octagonal_Shape(const Generator_System& gs)
 
 template <typename T>
 void
+Octagonal_Shape<T>::check_constraint(const char* method,
+                                     const Constraint& c) const {
+  const dimension_type c_space_dim = c.space_dimension();
+  // Dimension-compatibility check.
+  if (c_space_dim > space_dim) {
+    throw_dimension_incompatible(method, c);
+  }
+  if (c.is_strict_inequality()) {
+    // Nontrivial strict inequalities are not allowed.
+    if (!c.is_inconsistent() && !c.is_tautological()) {
+      throw_invalid_argument(method, "strict inequalities are not allowed");
+    }
+    return;
+  }
+  dimension_type num_vars = 0;
+  dimension_type i = 0;
+  dimension_type j = 0;
+  PPL_DIRTY_TEMP_COEFFICIENT(coeff);
+  PPL_DIRTY_TEMP_COEFFICIENT(term);
+  // Constraints that are not octagonal differences are not allowed.
+  if (!Octagonal_Shape_Helper
+    ::extract_octagonal_difference(c, c_space_dim, num_vars,
+                                   i, j, coeff, term)) {
+    throw_invalid_argument(method, "c is not an octagonal constraint");
+  }
+}
+
+template <typename T>
+void
+Octagonal_Shape<T>::check_congruence(const char* method,
+                                     const Congruence& cg) const {
+  // Dimension-compatibility check.
+  if (cg.space_dimension() > space_dimension()) {
+    throw_dimension_incompatible(method, cg);
+  }
+  if (cg.is_proper_congruence()) {
+    // Non-trivial and proper congruences are not allowed.
+    if (!cg.is_tautological() && !cg.is_inconsistent()) {
+      throw_invalid_argument(method,
+                             "cg is a non-trivial, proper congruence");
+    }
+    return;
+  }
+  check_constraint(method, Constraint(cg));
+}
+
+template <typename T>
+void
 Octagonal_Shape<T>::add_constraint(const Constraint& c) {
   const dimension_type c_space_dim = c.space_dimension();
   // Dimension-compatibility check.
